@@ -206,8 +206,8 @@ def producer_case(p, res):
                 bit_rows.append(list(exp))
                 m = float(got.abs().min())
                 min_mag = m if min_mag is None else min(min_mag, m)
-        if kind == "alternating":
-            # soft demodulation also accepts an un-batched symbol vector (returns (N, 2) LLRs): same polarity required
+        if kind in ("alternating", "memoryless"):
+            # soft demodulation also accepts an un-batched symbol vector: same polarity required (a demodulator may decline the layout)
             for L in lens:
                 for t in list(product([0, 1], repeat=L))[:64]:
                     try:
@@ -216,10 +216,16 @@ def producer_case(p, res):
                         sym = mod(torch.tensor([list(t)], dtype=torch.float32))[0]
                         got = dem(sym, s2).reshape(-1)
                     except Exception as e:  # noqa: BLE001
+                        if kind == "memoryless":
+                            res.rejected += 1
+                            break
                         res.viol(scheme, cfg, "raises", f"un-batched soft demodulation: {type(e).__name__}: {str(e)[:160]}")
                         break
                     res.ev(1, nontrivial=1 if any(t) else 0, transitions=2)
                     sg = [1 if float(v_) < 0 else 0 if float(v_) > 0 else None for v_ in got.tolist()]
+                    if got.numel() != len(t):
+                        res.viol(scheme, f"{cfg},layout=1d", "polarity", f"bits {list(t)}: un-batched soft demodulation returned {got.numel()} LLRs")
+                        break
                     if sg != list(t):
                         res.viol(scheme, f"{cfg},layout=1d", "polarity", f"bits {list(t)}: un-batched noise-free LLRs {[round(float(v_), 4) for v_ in got.tolist()]} have signs of {sg}", {"bits": list(t)})
                         break
